@@ -296,7 +296,7 @@ class C14(Property):
 
     def cases(self, tier, rng):
         lines = []
-        k = 2500 if tier == "quick" else 80000
+        k = 2500 if tier == "quick" else 300000
         for _ in range(k):
             u = rng.randint(1, 7)
             universe = rng.sample(range(1, 40), u)
